@@ -1,12 +1,513 @@
-/-! Executable model for property C10 (core-only).  Not built yet: the driver answers
-    `unimplemented` so that a check of this property cannot pass by accident. -/
+import FpgoVerif.Model.C10Core
+/-! C10 — line protocol on top of the transition system of `Model/C10Core.lean`.
+
+    `handle` is a *scheduler*: it turns a case line (operations, callback scripts, park/advance
+    commands of background publisher goroutines) into a sequence of `Act`s and applies `step` — the
+    very function the theorems of `Props/C10.lean` quantify over — so every observation it prints is
+    read off a `Reach`able state.  The same scheduler, instantiated with the *ideal* publisher
+    (`Ideal`: a list of registered ids, immutable snapshots) and guided by the observation the real
+    code printed, is the spec-level oracle `judge`: it accepts exactly the behaviours the property
+    allows (a subscription added or removed during a Publish may or may not see the value, everyone
+    else exactly once, subscription order without a handler).
+
+    Case lines (`<kind>: op ; op ; …`, kinds `seq`, `sched`; `stress: k=v …`):
+      s[@q][:a,b,…]  Subscribe on publisher q a subscription whose callback runs the script a,b,… :
+                     n = subscribe a new (script-less) one, u0/u-1/u+1/… = Unsubscribe self / the id
+                     self-1 / self+1 …, p = nested Publish(v*1000+100*j+self), j = position of the action in the script, (while fewer than 3 publishes of
+                     the harness are active on the goroutine and no handler is set)
+      u[@q]:<id>  Unsubscribe      p[@q]:<v>  Publish      c[@q]  number of subscriptions
+      m[@q]:<f>   Map(f) (a x+1, d 2x, z 0, i x, g -x) → next publisher index      h[@q]  SubscribeOn(new handler)
+      go<t>[@q]:<v>  goroutine t starts Publish(v) and parks after the snapshot
+      adv<t>         goroutine t passes one park point and runs to the next `beforeDelivery`      fin<t>  runs to the end
+    Observation per op: `+id`, `-`, `n=k`, `m<q>`, `h`, `[q.sid:v …]` (OnNext invocations during the op, in
+    order; suffix `h` when run on the handler goroutine), background ops add `P<q>.<v>` (parked inside Publish(v) on q) / `D` (done). -/
+
 namespace FpgoVerif.C10
 
-/-- one protocol case line in, one canonical observation line out -/
-def handle (_line : String) : String := "unimplemented"
+inductive SAct
+  | new
+  | unsub (d : Int)
+  | pub
+  | fwd (q : Nat) (f : Char)
+deriving Repr, Inhabited
 
-/-- spec-level oracle: given the case line and the observation printed by the real code, decide
-    whether the *property* is violated (`violation <why>`) or not (`allowed <why>`). -/
-def judge (_line _impl : String) : String := "violation model-and-implementation-disagree"
+structure SubInfo where
+  script : List SAct := []
+  hidden : Bool := false      -- the forwarding subscription of Map: not observed by the harness
+deriving Repr, Inhabited
+
+inductive Ctl
+  | script (q self : Nat) (v : Int) (rest : List SAct)
+  | pubLoop (q : Nat) (counted : Bool)
+  | unsubLoop (q : Nat)
+deriving Repr, Inhabited
+
+/-- (publisher, subscription, value, ran on the handler) -/
+abbrev Ev := Nat × Nat × Int × Bool
+
+/-- what the scheduler needs from a publisher implementation -/
+structure Backend (σ : Type) where
+  init : σ
+  nextId : σ → Nat
+  count : σ → Nat
+  handlerFlag : σ → Bool
+  posts : σ → Bool
+  subscribe : σ → Nat → σ
+  unsubBegin : σ → Nat → Nat → σ
+  unsubStep : σ → Nat → σ
+  inUnsub : σ → Nat → Bool
+  pubBegin : σ → Nat → Int → σ
+  next : σ → Nat → Option Nat → (Nat → Bool) → Option Nat
+  curVal : σ → Nat → Int
+  more : σ → Nat → Bool      -- (oracle only) the innermost Publish of the goroutine still has snapshot members ahead
+  deliver : σ → Nat → Nat → σ
+  pubEnd : σ → Nat → σ
+  cbReturn : σ → Nat → σ
+  setSubOn : σ → Nat → Bool → σ
+  mailHead : σ → Option (Nat × Int)
+  hrun : σ → Nat → σ
+  viols : σ → List String
+
+/-! ### backend 1: the implementation model (`step`) -/
+
+structure MSt where
+  s : State
+  stuck : Bool := false
+
+def mact (fixed : Bool) (m : MSt) (a : Act) : MSt :=
+  match step fixed goGrow m.s a with
+  | some s' => { m with s := s' }
+  | none => { m with stuck := true }
+
+def topPub (s : State) (t : Nat) : Option PubF :=
+  match s.stacks t with
+  | .pub f :: _ => some f
+  | _ => none
+
+/-- the innermost Publish of goroutine `t` (callback frames above it skipped) -/
+def innerPub (s : State) (t : Nat) : Option PubF :=
+  (s.stacks t).findSome? (fun fr => match fr with | .pub f => some f | _ => none)
+
+def modelBackend (fixed : Bool) : Backend MSt where
+  init := { s := init }
+  nextId m := m.s.nextId
+  count m := m.s.subs.len
+  handlerFlag m := m.s.subOn
+  posts m := m.s.subOn
+  subscribe m t := mact fixed m (.subscribe t)
+  unsubBegin m t x := mact fixed m (.unsubBegin t x)
+  unsubStep m t := mact fixed m (.unsubStep t)
+  inUnsub m t := match m.s.stacks t with | .unsub _ :: _ => true | _ => false
+  pubBegin m t v := mact fixed m (.pubBegin t v)
+  next m t _ _ := match topPub m.s t with
+    | some f => if f.k < f.h.len then some (readCell m.s.heap f.h f.k) else none
+    | none => none
+  curVal m t := match innerPub m.s t with | some f => f.val | none => 0
+  more _ _ := false
+  deliver m t _ := mact fixed m (.deliver t)
+  pubEnd m t := mact fixed m (.pubEnd t)
+  cbReturn m t := mact fixed m (.cbReturn t)
+  setSubOn m t b := mact fixed m (.setSubOn t b)
+  mailHead m := match m.s.mailbox with | (_, x, v) :: _ => some (x, v) | [] => none
+  hrun m t := mact fixed m (.hrun t)
+  viols m := if m.stuck then ["model-stuck"] else []
+
+/-! ### backend 2: the ideal publisher = the property's own statement -/
+
+structure IFrame where
+  v : Int
+  snap : List Nat
+  n0 : Nat
+  dl : List Nat
+deriving Inhabited
+
+structure Ideal where
+  reg : List Nat := []
+  nextId : Nat := 1
+  handler : Bool := false
+  pend : Nat → List Nat := fun _ => []
+  frames : Nat → List IFrame := fun _ => []
+  viols : List String := []
+
+def Ideal.deliver (s : Ideal) (t x : Nat) : Ideal :=
+  match s.frames t with
+  | [] => { s with viols := s!"delivery-outside-publish {x}" :: s.viols }
+  | f :: rest =>
+    let why : List String :=
+      (if f.dl.contains x then [s!"twice sub={x} v={f.v}"] else []) ++
+      (if x = 0 ∨ x ≥ s.nextId then [s!"phantom sub={x} v={f.v}"]
+       else if x < f.n0 ∧ !f.snap.contains x then [s!"after-unsubscribe sub={x} v={f.v}"] else []) ++
+      (match f.dl.getLast? with
+       | some y => if !s.handler ∧ x ≤ y then [s!"order sub={x} after sub={y} v={f.v}"] else []
+       | none => [])
+    { s with frames := upd s.frames t ({ f with dl := f.dl ++ [x] } :: rest), viols := why.reverse ++ s.viols }
+
+def Ideal.pubEnd (s : Ideal) (t : Nat) : Ideal :=
+  match s.frames t with
+  | [] => s
+  | f :: rest =>
+    -- registered before the call and still registered when it ends ⇒ exactly once
+    let must := f.snap.filter (fun x => s.reg.contains x)
+    let missed := must.filter (fun x => !f.dl.contains x)
+    { s with frames := upd s.frames t rest,
+             viols := (missed.map (fun x => s!"skipped sub={x} v={f.v}")).reverse ++ s.viols }
+
+def idealBackend : Backend Ideal where
+  init := {}
+  nextId s := s.nextId
+  count s := s.reg.length
+  handlerFlag s := s.handler
+  posts _ := false
+  subscribe s _ := { s with reg := s.reg ++ [s.nextId], nextId := s.nextId + 1 }
+  unsubBegin s t x := { s with pend := upd s.pend t (x :: s.pend t) }
+  unsubStep s t := match s.pend t with
+    | x :: rest => { s with reg := s.reg.filter (· ≠ x), pend := upd s.pend t rest }
+    | [] => s
+  inUnsub s t := !(s.pend t).isEmpty
+  pubBegin s t v := { s with frames := upd s.frames t ({ v := v, snap := s.reg, n0 := s.nextId, dl := [] } :: s.frames t) }
+  next s t hint hidden := match s.frames t with
+    | f :: _ =>
+      -- unobserved forwarding subscriptions are assumed to get their turn
+      match f.snap.filter (fun y => hidden y && !f.dl.contains y && (match hint with | some x => decide (y < x) | none => true)) with
+      | y :: _ => some y
+      | [] => hint
+    | [] => none
+  curVal s t := match s.frames t with | f :: _ => f.v | [] => 0
+  more s t := match s.frames t with
+    | f :: _ =>
+      let ahead := fun (x : Nat) => match f.dl.getLast? with | some y => decide (y < x) | none => true
+      -- snapshot members ahead, or subscriptions added during the call (they may or may not see the value)
+      f.snap.any ahead || (List.range s.nextId).any (fun x => decide (f.n0 ≤ x) && ahead x)
+    | [] => false
+  deliver := Ideal.deliver
+  pubEnd := Ideal.pubEnd
+  cbReturn s _ := s
+  setSubOn s _ b := { s with handler := b }
+  mailHead _ := none
+  hrun s _ := s
+  viols s := s.viols.reverse
+
+/-! ### the scheduler -/
+
+structure World (σ : Type) where
+  pubs : List σ
+  infos : List (List SubInfo)
+  ctl : Nat → List Ctl := fun _ => []
+  ev : List Ev := []
+  obs : List Ev := []
+  park : Nat → Bool := fun _ => false
+  atSnap : Nat → Bool := fun _ => false
+  errs : List String := []
+
+inductive Status | cont | parked | done
+deriving DecidableEq
+
+section sched
+variable {σ : Type} (B : Backend σ)
+
+def getPub (w : World σ) (q : Nat) : σ := w.pubs.getD q B.init
+def setPub (w : World σ) (q : Nat) (s : σ) : World σ := { w with pubs := w.pubs.set q s }
+def infoOf (w : World σ) (q x : Nat) : SubInfo := if x = 0 then {} else (w.infos.getD q []).getD (x - 1) {}
+def addInfo (w : World σ) (q : Nat) (i : SubInfo) : World σ :=
+  { w with infos := w.infos.set q (w.infos.getD q [] ++ [i]) }
+
+def depthOf (c : List Ctl) : Nat :=
+  (c.filter (fun e => match e with | .pubLoop _ true => true | _ => false)).length
+
+def applyFn (f : Char) (v : Int) : Int :=
+  if f = 'a' then v + 1 else if f = 'd' then 2 * v else if f = 'z' then 0 else if f = 'g' then -v else v
+
+/-- does the observed event belong to a Publish that is live further down this goroutine's stack?
+    (a callback entry `script q _ v _` sits on top of the loop of the Publish(v) on q that invoked it) -/
+def matchesOuter (rest : List Ctl) (e : Ev) : Bool :=
+  rest.any (fun c => match c with | .script q _ v _ => q = e.1 ∧ v = e.2.2.1 | _ => false)
+
+/-- one micro-step of goroutine `t`.  `guided` = spec mode driven by the observed events `w.obs` and the
+    park status `status` the real code reported for this op; `rel` = the goroutine was just released. -/
+def micro (guided : Bool) (status : String) (w : World σ) (t : Nat) (rel : Bool) : World σ × Status :=
+  match w.ctl t with
+  | [] => (w, .done)
+  | .unsubLoop q :: rest =>
+    let s := B.unsubStep (getPub B w q) t
+    let w := setPub w q s
+    if B.inUnsub s t then (w, .cont) else ({ w with ctl := upd w.ctl t rest }, .cont)
+  | .pubLoop q counted :: rest =>
+    let s := getPub B w q
+    let v := B.curVal s t
+    -- guided: the next observed delivery if it belongs to this very Publish (publisher, value).  Deliveries run
+    -- on a handler goroutine are printed after the direct ones, so with a handler the first matching one is taken.
+    let anyH := w.pubs.any B.handlerFlag
+    let hint : Option Nat :=
+      if !guided then none
+      else if anyH then (w.obs.find? (fun e => e.1 = q ∧ e.2.2.1 = v)).map (·.2.1)
+      else match w.obs with
+        | (q', x, v', _) :: _ => if q' = q ∧ v' = v then some x else none
+        | [] => none
+    let finish : World σ × Status :=
+      let w := setPub w q (B.pubEnd s t)
+      ({ w with ctl := upd w.ctl t rest }, .cont)
+    match B.next s t hint (fun y => (infoOf w q y).hidden) with
+    | some x =>
+      if !guided && w.park t && !rel then (w, .parked) else
+      let info := infoOf w q x
+      let onH := B.handlerFlag s
+      let s := B.deliver s t x
+      let w := setPub w q s
+      -- an observed delivery that was used as the hint is consumed (an assumed forwarder delivery consumes nothing)
+      let w := if guided && hint == some x then { w with obs := w.obs.eraseP (fun e => e.1 = q ∧ e.2.1 = x ∧ e.2.2.1 = v) } else w
+      let w := if info.hidden || B.posts s then w else { w with ev := (q, x, v, onH) :: w.ev }
+      if B.posts s then (w, .cont)
+      else ({ w with ctl := upd w.ctl t (.script q x v info.script :: .pubLoop q counted :: rest) }, .cont)
+    | none =>
+      if guided then
+        -- no observed delivery left for this Publish.  A goroutine the real code reported as parked (`P<q>.<v>` =
+        -- inside Publish(v) on q) stays here iff the op's observed deliveries are used up and this is that
+        -- Publish; otherwise this loop is over and the goroutine runs on.
+        let here := if counted then status == s!"P{q}.{v}" else status.startsWith "P" && B.more s t
+        if w.obs.isEmpty && w.park t && here then (w, .parked) else finish
+      else finish
+  | .script q _ _ [] :: rest =>
+    let w := setPub w q (B.cbReturn (getPub B w q) t)
+    ({ w with ctl := upd w.ctl t rest }, .cont)
+  | .script q self v (a :: as) :: rest =>
+    let base := .script q self v as :: rest
+    let w := { w with ctl := upd w.ctl t base }
+    let s := getPub B w q
+    match a with
+    | .new => (addInfo (setPub w q (B.subscribe s t)) q {}, .cont)
+    | .unsub d =>
+      let tgt : Int := (self : Int) + d
+      if 1 ≤ tgt ∧ tgt < (B.nextId s : Int) ∧ !(infoOf w q tgt.toNat).hidden then
+        let w := setPub w q (B.unsubBegin s t tgt.toNat)
+        ({ w with ctl := upd w.ctl t (.unsubLoop q :: base) }, .cont)
+      else (w, .cont)
+    | .pub =>
+      if depthOf base < 3 ∧ !B.handlerFlag s then
+        -- distinct values for distinct nested publishes: position of the action in the script, subscription id
+        let j := (infoOf w q self).script.length - as.length - 1
+        let w := setPub w q (B.pubBegin s t (v * 1000 + 100 * j + self))
+        ({ w with ctl := upd w.ctl t (.pubLoop q true :: base) }, .cont)
+      else (w, .cont)
+    | .fwd q2 f =>
+      let w := setPub w q2 (B.pubBegin (getPub B w q2) t (applyFn f v))
+      ({ w with ctl := upd w.ctl t (.pubLoop q2 false :: base) }, .cont)
+
+def runThread (guided : Bool) (status : String) : Nat → World σ → Nat → Bool → World σ × Status
+  | 0, w, _, _ => ({ w with errs := "fuel" :: w.errs }, .done)
+  | n + 1, w, t, rel =>
+    match micro B guided status w t rel with
+    | (w, .cont) => runThread guided status n w t false
+    | r => r
+
+def fuel : Nat := 200000
+
+/-- run the posted deliveries on the handler goroutines (thread 100+q), oldest first -/
+def drain (guided : Bool) : Nat → World σ → World σ
+  | 0, w => w
+  | n + 1, w =>
+    let qs := (List.range w.pubs.length).filter (fun q => (B.mailHead (getPub B w q)).isSome)
+    match qs with
+    | [] => w
+    | q :: _ =>
+      match B.mailHead (getPub B w q) with
+      | none => w
+      | some (x, v) =>
+        let t := 100 + q
+        let info := infoOf w q x
+        let w := setPub w q (B.hrun (getPub B w q) t)
+        let w := if info.hidden then w else { w with ev := (q, x, v, true) :: w.ev }
+        let w := { w with ctl := upd w.ctl t [.script q x v info.script] }
+        let (w, _) := runThread B guided "D" fuel w t false
+        drain guided n w
+
+def showEv (e : Ev) : String := s!"{e.1}.{e.2.1}:{e.2.2.1}" ++ (if e.2.2.2 then "h" else "")
+/-- canonical form: the deliveries run directly (in order), then those run on the handler goroutine (in order);
+    the relative order of the two goroutines is schedule-dependent and not constrained by the property -/
+def showEvs (l : List Ev) : String :=
+  let l := l.reverse
+  "[" ++ " ".intercalate ((l.filter (fun e => !e.2.2.2) ++ l.filter (fun e => e.2.2.2)).map showEv) ++ "]"
+
+def parseScript (s : String) : List SAct :=
+  ((s.splitOn ",").filter (· ≠ "")).map (fun a =>
+    if a = "n" then .new else if a = "p" then .pub
+    else if a.startsWith "u" then .unsub ((a.drop 1).toString.replace "+" "").toInt!
+    else .new)
+
+/-- split `name[@q][:arg]` -/
+def parseTok (tok : String) : String × Nat × String :=
+  let (lhs, arg) := match tok.splitOn ":" with
+    | [l] => (l, "")
+    | l :: r => (l, ":".intercalate r)
+    | [] => ("", "")
+  match lhs.splitOn "@" with
+  | [n, q] => (n, q.toNat!, arg)
+  | _ => (lhs, 0, arg)
+
+/-- one operation of the case line; `impl` = the token the real code printed (guided mode only) -/
+def doOp (guided : Bool) (impl : String) (w : World σ) (tok : String) : World σ × String :=
+  let (name, q, arg) := parseTok tok
+  -- what the real code reported after the events: `D` (done) or `P<q>.<v>` (parked inside Publish(v) on q)
+  let status : String := match impl.splitOn "]" with | [_, st] => st | _ => "D"
+  -- where goroutine t is parked: its innermost harness-initiated Publish
+  let parkedAt (w : World σ) (t : Nat) : String :=
+    match (w.ctl t).findSome? (fun c => match c with | .pubLoop q true => some q | _ => none) with
+    | some q => s!"P{q}.{B.curVal (getPub B w q) t}"
+    | none => "P"
+  let w := { w with ev := [] }
+  let bad := ({ w with errs := s!"bad-op {tok}" :: w.errs }, "bad-op")
+  if q ≥ w.pubs.length then bad else
+  let s := getPub B w q
+  let finishMain (w : World σ) : World σ :=
+    let (w, _) := runThread B guided status fuel w 0 false
+    drain B guided 10000 w
+  if name = "s" then
+    let id := B.nextId s
+    let w := addInfo (setPub w q (B.subscribe s 0)) q { script := parseScript arg }
+    (w, s!"+{id}")
+  else if name = "u" then
+    let x := arg.toNat!
+    if 1 ≤ x ∧ x < B.nextId s ∧ !(infoOf w q x).hidden then
+      let w := setPub w q (B.unsubBegin s 0 x)
+      let w := { w with ctl := upd w.ctl 0 [.unsubLoop q] }
+      (finishMain w, "-")
+    else (w, "-")
+  else if name = "p" then
+    let w := setPub w q (B.pubBegin s 0 arg.toInt!)
+    let w := { w with ctl := upd w.ctl 0 [.pubLoop q true] }
+    let w := finishMain w
+    (w, showEvs w.ev)
+  else if name = "c" then (w, s!"n={B.count s}")
+  else if name = "h" then (setPub w q (B.setSubOn s 0 true), "h")
+  else if name = "m" then
+    let q2 := w.pubs.length
+    let f := arg.front
+    let w := addInfo (setPub w q (B.subscribe s 0)) q { script := [.fwd q2 f], hidden := true }
+    ({ w with pubs := w.pubs ++ [B.init], infos := w.infos ++ [[]] }, s!"m{q2}")
+  else if name.startsWith "go" then
+    let t := (name.drop 2).toString.toNat!
+    if !(w.ctl t).isEmpty then bad else
+    let w := setPub w q (B.pubBegin s t arg.toInt!)
+    let w := { w with ctl := upd w.ctl t [.pubLoop q true], park := upd w.park t true, atSnap := upd w.atSnap t true }
+    (w, "[]" ++ parkedAt w t)
+  else if name.startsWith "adv" then
+    let t := (name.drop 3).toString.toNat!
+    if (w.ctl t).isEmpty then (w, "[]D") else
+    let rel := !w.atSnap t
+    let w := { w with atSnap := upd w.atSnap t false }
+    let (w, st) := runThread B guided status fuel w t rel
+    let w := if st = .done then { w with park := upd w.park t false } else w
+    (w, showEvs w.ev ++ (if st = .parked then parkedAt w t else "D"))
+  else if name.startsWith "fin" then
+    let t := (name.drop 3).toString.toNat!
+    let w := { w with park := upd w.park t false, atSnap := upd w.atSnap t false }
+    let (w, _) := runThread B guided "D" fuel w t true
+    (w, showEvs w.ev ++ "D")
+  else bad
+
+def initWorld : World σ := { pubs := [B.init], infos := [[]] }
+
+def splitOps (body : String) : List String :=
+  ((body.splitOn ";").map (fun t => t.trimAscii.toString)).filter (· ≠ "")
+
+def runOps (ops : List String) : World σ × List String :=
+  let (w, outs) := ops.foldl (fun (acc : World σ × List String) tok =>
+    let (w, o) := doOp B false "" acc.1 tok
+    (w, o :: acc.2)) (initWorld B, [])
+  (w, outs.reverse)
+
+end sched
+
+/-- `kind: body` -/
+def splitKind (line : String) : String × String :=
+  match line.splitOn ": " with
+  | k :: rest => (k, ": ".intercalate rest)
+  | [] => ("", "")
+
+def param (body key : String) : Nat :=
+  match (body.splitOn " ").filterMap (fun kv => match kv.splitOn "=" with
+      | [k, v] => if k = key then v.toNat? else none
+      | _ => none) with
+  | v :: _ => v
+  | [] => 0
+
+/-- what a stress case must print when the property holds: every stable subscriber saw each of the
+    `pubs * n` values exactly once, in per-publisher order; no monitor fired -/
+def stressExpect (body : String) : String :=
+  s!"ok stable={param body "stable"}x{param body "pubs" * param body "n"}"
+
+def runCase (fixed : Bool) (line : String) : String :=
+  let (kind, body) := splitKind line
+  if kind = "stress" then stressExpect body
+  else if kind = "seq" ∨ kind = "sched" then
+    let (w, outs) := runOps (modelBackend fixed) (splitOps body)
+    let stuck := w.pubs.any (fun m => m.stuck) || w.errs.contains "fuel"
+    " | ".intercalate outs ++ (if stuck then " | model-stuck" else "")
+  else "bad-kind"
+
+/-- protocol entry point (the code as it is now: copying Unsubscribe) -/
+def handle (line : String) : String := runCase true line
+
+/-! ### the oracle -/
+
+def parseEv (s : String) : Option Ev :=
+  let onH := s.endsWith "h"
+  let s := if onH then (s.dropEnd 1).toString else s
+  match s.splitOn ":" with
+  | [qs, v] => match qs.splitOn "." with
+    | [q, x] => match q.toNat?, x.toNat?, v.toInt? with
+      | some q, some x, some v => some (q, x, v, onH)
+      | _, _, _ => none
+    | _ => none
+  | _ => none
+
+/-- `[e e …]` optionally followed by P/D → events -/
+def parseEvs (tok : String) : Option (List Ev) :=
+  if !tok.startsWith "[" then none else
+  let body := (tok.drop 1).toString
+  match body.splitOn "]" with
+  | [inner, _] =>
+    let parts := (inner.splitOn " ").filter (· ≠ "")
+    let evs := parts.map parseEv
+    if evs.all (·.isSome) then some (evs.filterMap id) else none
+  | _ => none
+
+def judgeOps (ops impls : List String) : List String :=
+  let B := idealBackend
+  let (w, complaints) := (ops.zip impls).foldl (fun (acc : World Ideal × List String) (p : String × String) =>
+    let (w, cs) := acc
+    let (tok, impl) := p
+    let evs := parseEvs impl
+    let w := { w with obs := evs.getD [] }
+    let (w', out) := doOp B true impl w tok
+    let isEvTok := out.startsWith "["
+    let cs := if isEvTok then
+        (match evs with
+         | none => cs ++ [s!"op '{tok}' printed '{impl}'"]
+         | some _ =>
+           let cs := if w'.obs.isEmpty then cs else cs ++ (w'.obs.map (fun e => s!"unexpected delivery {showEv e} in '{tok}'"))
+           -- handler flag of every observed event must agree with SubscribeOn
+           let wrongH := (evs.getD []).filter (fun e => e.2.2.2 != (B.handlerFlag (getPub B w' e.1)))
+           cs ++ wrongH.map (fun e => s!"wrong goroutine for {showEv e}"))
+      else if out = impl || out.startsWith "n=" then cs   -- the count is not part of the property's statement
+      else cs ++ [s!"op '{tok}' printed '{impl}', the property's semantics gives '{out}'"]
+    ({ w' with obs := [] }, cs)) (initWorld B, [])
+  let vs := (w.pubs.map (fun s => B.viols s)).flatten
+  -- publishes of background goroutines still open at the end of the line are not judged
+  vs ++ complaints ++ w.errs
+
+def judge (line impl : String) : String :=
+  let (kind, body) := splitKind line
+  if kind = "stress" then
+    if impl = stressExpect body then "allowed stress monitors silent"
+    else s!"violation stress monitor: {impl}"
+  else if kind = "seq" ∨ kind = "sched" then
+    let ops := splitOps body
+    let impls := (impl.splitOn " | ").map (fun t => t.trimAscii.toString)
+    if impls.any (fun t => t = "panic" ∨ t = "hang" ∨ t = "crash" ∨ t.startsWith "viol") then s!"violation {impl}"
+    else if impls.length ≠ ops.length then s!"violation malformed observation ({impls.length} tokens for {ops.length} ops)"
+    else match judgeOps ops impls with
+      | [] => "allowed every delivery is one the property permits (model differs)"
+      | vs => "violation " ++ "; ".intercalate (vs.take 4)
+  else "violation bad-kind"
 
 end FpgoVerif.C10
